@@ -48,7 +48,9 @@ pub fn exec(rec: &Value, _st: &mut State) -> Value {
             let pts: Vec<Point2> = gvvi(rec, "ref").iter().map(|p| Point2::new((p[0] + off[0]) as f64, (p[1] + off[1]) as f64)).collect();
             let curve = Curve2::from_points(&pts, 1e-8, true).expect("reference curve");
             let d = disp2(&rec["D"]);
-            let samples: Vec<Point2> = gvvi(rec, "samples").iter().map(|p| Point2::new(p[0] as f64 / 2.0 + off[0] as f64, p[1] as f64 / 2.0 + off[1] as f64)).collect();
+            // sample coordinates are integers over `sden` (half lattice units unless stated otherwise)
+            let sden = gi_or(rec, "sden", 2) as f64;
+            let samples: Vec<Point2> = gvvi(rec, "samples").iter().map(|p| Point2::new(p[0] as f64 / sden + off[0] as f64, p[1] as f64 / sden + off[1] as f64)).collect();
             // the displacement acts about the part (its offset), not about the far-away origin
             let o2 = parry2d_f64::na::Vector2::new(off[0] as f64, off[1] as f64);
             let points: Vec<Point2> = samples.iter().map(|s| Point2::from(o2) + (d * Point2::from(s.coords - o2)).coords).collect();
